@@ -44,7 +44,7 @@ def grid(cfg, maxsize=5, chunk=120):
     return scripts, len(cases)
 
 def run(ctx):
-    ok = ctx.lean(['AmcVerif.Props.C10', 'AmcVerif.Props.C10b'], extra_modules=['AmcVerif.Bridge.VecGlueBridge'])
+    ok = ctx.lean(['AmcVerif.Props.C10', 'AmcVerif.Props.C10b'], extra_modules=['AmcVerif.Bridge.VecGlueBridge', 'AmcVerif.Bridge.VecHelpersBridge'])
     cfgs = [V.VecCfg('small', 3, 'U32', 'ntr', pool=1), V.VecCfg('small', 4, 'U8', 'tr', pool=1), V.VecCfg('std', 0, 'U32', 'ntr', alloc=1, pool=1),
             V.VecCfg('std', 0, 'U32', 'tc', pool=1), V.VecCfg('fixed', 8, 'U8', 'ntr', pool=1), V.VecCfg('small', 6, 'U16', 'tc', pool=1)]
     if ctx.tier == 'thorough':
